@@ -17,7 +17,30 @@ func registerStoreStubs(e *Engine) {
 		return out
 	})
 	e.reg(RepoModule+"/storage/execout/pb.unsafeGetString", func(fr *frame, args []value) value { return mkstr(args[0].([]value)) })
-	// derr.RetryContext: f is called until it returns nil, at most retries+1 times, no sleeping
+	// derr.NewFatalError wraps an error so that RetryContext stops retrying and returns the original
+	e.reg("github.com/streamingfast/derr.NewFatalError", func(fr *frame, args []value) value {
+		if oi, ok := args[0].(iface); ok && oi.t == nil {
+			panic(rtPanic("the 'original' argument is mandatory"))
+		}
+		v := value(structure{args[0]})
+		return &v
+	})
+	fatalOriginal := func(v value) (value, bool) {
+		i, ok := v.(iface)
+		if !ok || i.t == nil || !strings.HasSuffix(i.t.String(), "streamingfast/derr.FatalError") {
+			return nil, false
+		}
+		p, ok := i.v.(*value)
+		if !ok || p == nil {
+			return nil, false
+		}
+		if st, ok := (*p).(structure); ok && len(st) == 1 {
+			return st[0], true
+		}
+		return nil, false
+	}
+	// derr.RetryContext: f is called until it returns nil or a FatalError (whose original error
+	// is returned), at most retries+1 times, no sleeping
 	e.reg("github.com/streamingfast/derr.RetryContext", func(fr *frame, args []value) value {
 		n := asInt64c(args[1])
 		var last value = iface{}
@@ -25,6 +48,9 @@ func registerStoreStubs(e *Engine) {
 			last = fr.ex.call(fr, 0, args[2], []value{args[0]})
 			if li, ok := last.(iface); ok && li.t == nil {
 				return last
+			}
+			if orig, ok := fatalOriginal(last); ok {
+				return orig
 			}
 		}
 		return last
